@@ -199,6 +199,16 @@ def make_unit(rng, uid, for_verify=False):
         u["funcs"].append({"name": "fn%d_%d" % (uid, i), "ret": rng.choice(INT_NAMES),
                            "args": [rng.choice(INT_NAMES) for _ in range(nargs)],
                            "coef": [rng.randint(1, 9) for _ in range(nargs)], "add": rng.randint(0, 99)})
+    # a struct passed and returned BY VALUE, pointers into test-owned and static storage, a struct global:
+    # exercised by the stateful sessions (make_session / run_session)
+    A, B, C = rng.choice(INT_NAMES), rng.choice(INT_NAMES), rng.choice(INT_NAMES)
+    clen = rng.randint(2, 3)
+    name = "sv%d" % uid
+    u["structs"].append({"name": name, "union": False, "partial": False, "packed": False, "special": "value",
+                         "fields": [{"name": "a", "type": A, "len": None}, {"name": "b", "type": B, "len": None},
+                                    {"name": "c", "type": C, "len": clen}, {"name": "d", "type": "double", "len": None}]})
+    u["vstruct"] = {"name": name, "A": A, "B": B, "C": C, "clen": clen,
+                    "ginit": [gen_value(rng, INTS[A]), gen_value(rng, INTS[B]), gen_value(rng, INTS[C])]}
     return u
 
 
@@ -258,6 +268,17 @@ def helper_decls(orig):
     for c in all_consts(orig):
         d.append("int verif_cpos_%s(void);" % c["name"])
         d.append("unsigned long long verif_cbits_%s(void);" % c["name"])
+    v = orig.get("vstruct")
+    if v:
+        n = v["name"]
+        d += ["struct %s mk_%s(%s, %s);" % (n, n, v["A"], v["B"]),
+              "unsigned long long sum_%s(struct %s);" % (n, n),
+              "struct %s *id_%s(struct %s *);" % (n, n, n),
+              "%s *cof_%s(struct %s *);" % (v["C"], n, n),
+              "struct %s *static_%s(void);" % (n, n),
+              "void bump_%s(%s);" % (n, v["A"]),
+              "extern struct %s g_%s;" % (n, n),
+              "void gbump_%s(%s);" % (n, v["A"])]
     return d
 
 
@@ -287,7 +308,7 @@ def all_consts(unit):
 
 
 def render_csource(orig):
-    L = ["#include <stddef.h>", "#include <stdint.h>"]
+    L = ["#include <stddef.h>", "#include <stdint.h>", "#include <string.h>"]
     for td in orig["typedefs"]:
         L.append("typedef %s %s;" % (td["base"], td["name"]))
     for s in orig["structs"]:
@@ -324,6 +345,22 @@ def render_csource(orig):
         L.append("%s verif_get_%s(void) { return %s; }" % (g["type"], g["name"], g["name"]))
         L.append("void verif_set_%s(%s v) { %s = v; }" % (g["name"], g["type"], g["name"]))
         L.append("void *verif_addr_%s(void) { return &%s; }" % (g["name"], g["name"]))
+    v = orig.get("vstruct")
+    if v:
+        n, A, B, C = v["name"], v["A"], v["B"], v["C"]
+        L += ["static struct %s mk_%s(%s a, %s b) { struct %s r; memset(&r, 0, sizeof r); r.a = a; r.b = b; "
+              "r.c[0] = (%s)((unsigned long long)a * 3ULL + (unsigned long long)b); r.d = 0.5; return r; }" % (n, n, A, B, n, C),
+              "static unsigned long long sum_%s(struct %s x) { return (unsigned long long)x.a + (unsigned long long)x.b * 3ULL "
+              "+ (unsigned long long)x.c[0]; }" % (n, n),
+              "static struct %s *id_%s(struct %s *p) { return p; }" % (n, n, n),
+              "static %s *cof_%s(struct %s *p) { return p->c; }" % (C, n, n),
+              "static struct %s verif_static_%s;" % (n, n),
+              "static struct %s *static_%s(void) { return &verif_static_%s; }" % (n, n, n),
+              "static void bump_%s(%s a) { verif_static_%s.a = a; verif_static_%s.b = (%s)((unsigned long long)verif_static_%s.b + 1ULL); }"
+              % (n, A, n, n, B, n),
+              "struct %s g_%s = { %s, %s, { %s }, 0.25 };" % (n, n, c_literal(v["ginit"][0]), c_literal(v["ginit"][1]),
+                                                               c_literal(v["ginit"][2])),
+              "static void gbump_%s(%s a) { g_%s.a = a; g_%s.c[0] = (%s)((unsigned long long)g_%s.c[0] + 1ULL); }" % (n, A, n, n, C, n)]
     for c in all_consts(orig):
         L.append("int verif_cpos_%s(void) { return (%s) > 0; }" % (c["name"], c["name"]))
         L.append("unsigned long long verif_cbits_%s(void) { return (unsigned long long)(%s); }" % (c["name"], c["name"]))
@@ -717,6 +754,219 @@ def probes_for(rng, unit, orig, facts, skip_structs=(), skip_consts=(), ncalls=6
         for args, want in call_cases(rng, unit, fn, ncalls):
             P.append(("func:" + fn["name"], {"k": "call", "name": fn["name"], "args": args}, want))
     return P
+
+
+# ------------------------------------------------------------------ stateful sessions
+
+def make_session(rng, unit, nsteps=40):
+    """A script of interleaved calls; every result is KEPT and re-read after the whole script has run."""
+    v = unit["vstruct"]
+    A, B, C = INTS[v["A"]], INTS[v["B"]], INTS[v["C"]]
+    steps, kinds = [], []          # kinds[i]: kind of the object kept by step i (None: nothing kept)
+
+    def kept(kind):
+        return [i for i, k in enumerate(kinds) if k == kind]
+
+    for n in range(nsteps):
+        r = rng.random()
+        if n < 2 or r < 0.30:
+            st = {"op": "mk", "a": gen_value(rng, A), "b": gen_value(rng, B)}
+            k = "struct"
+        elif r < 0.38 and kept("struct"):
+            st = {"op": "sum", "of": rng.choice(kept("struct"))}
+            k = "prim"
+        elif r < 0.46:
+            st = {"op": "new", "a": gen_value(rng, A), "b": gen_value(rng, B), "c": gen_value(rng, C)}
+            k = "owned"
+        elif r < 0.54 and kept("owned"):
+            st = {"op": "id", "of": rng.choice(kept("owned"))}
+            k = "ptr"
+        elif r < 0.60 and kept("owned"):
+            st = {"op": "cof", "of": rng.choice(kept("owned"))}
+            k = "cptr"
+        elif r < 0.66:
+            st = {"op": "static"}
+            k = "ptr"
+        elif r < 0.72:
+            st = {"op": "bump", "a": gen_value(rng, A)}
+            k = None
+        elif r < 0.78:
+            st = {"op": "gread"}
+            k = "ptr"
+        elif r < 0.83:
+            st = {"op": "gbump", "a": gen_value(rng, A)}
+            k = None
+        elif r < 0.91 and kept("struct"):
+            st = {"op": "write", "of": rng.choice(kept("struct")), "a": gen_value(rng, A)}
+            k = None
+        elif r < 0.95 and kept("ptr"):
+            st = {"op": "pwrite", "of": rng.choice(kept("ptr")), "b": gen_value(rng, B)}
+            k = None
+        elif unit["funcs"]:
+            fn = rng.choice(unit["funcs"])
+            st = {"op": "call", "name": fn["name"], "args": [gen_value(rng, INTS[t]) for t in fn["args"]]}
+            k = "prim"
+        else:
+            st = {"op": "mk", "a": gen_value(rng, A), "b": gen_value(rng, B)}
+            k = "struct"
+        steps.append(st)
+        kinds.append(k)
+    return steps
+
+
+def run_session(ffi, lib, unit, steps):
+    """Runs the script on a built library; returns {"immediate": [...], "final": [...], "alias": [...]}:
+    what each step returned at once, what every kept object reads as after ALL steps, and which kept
+    objects share an address."""
+    v = unit["vstruct"]
+    n = v["name"]
+    kept, imm = [], []
+
+    def read(o):
+        return [int(o.a), int(o.b), int(o.c[0])]
+
+    for st in steps:
+        obj, out = None, None
+        try:
+            op = st["op"]
+            if op == "mk":
+                obj = getattr(lib, "mk_" + n)(st["a"], st["b"])
+                out = read(obj)
+            elif op == "sum":
+                out = int(getattr(lib, "sum_" + n)(kept[st["of"]]))
+                obj = out
+            elif op == "new":
+                obj = ffi.new("struct %s *" % n)
+                obj.a, obj.b, obj.c[0] = st["a"], st["b"], st["c"]
+                out = read(obj)
+            elif op == "id":
+                obj = getattr(lib, "id_" + n)(kept[st["of"]])
+                out = read(obj)
+            elif op == "cof":
+                obj = getattr(lib, "cof_" + n)(kept[st["of"]])
+                out = int(obj[0])
+            elif op == "static":
+                obj = getattr(lib, "static_" + n)()
+                out = read(obj)
+            elif op == "bump":
+                getattr(lib, "bump_" + n)(st["a"])
+            elif op == "gread":
+                obj = getattr(lib, "g_" + n)
+                out = read(obj)
+            elif op == "gbump":
+                getattr(lib, "gbump_" + n)(st["a"])
+            elif op == "write":
+                kept[st["of"]].a = st["a"]
+            elif op == "pwrite":
+                kept[st["of"]].b = st["b"]
+            elif op == "call":
+                out = int(getattr(lib, st["name"])(*st["args"]))
+                obj = out
+        except Exception as e:
+            out = {"exc": classify_exc(ffi, e)}
+            obj = None
+        kept.append(obj)
+        imm.append(out)
+    final, addrs = [], []
+    for st, o in zip(steps, kept):
+        try:
+            if o is None:
+                final.append(None)
+                addrs.append(None)
+            elif isinstance(o, int):
+                final.append(o)
+                addrs.append(None)
+            elif st["op"] == "cof":
+                final.append(int(o[0]))
+                addrs.append(int(ffi.cast("uintptr_t", o)))
+            elif st["op"] in ("mk", "gread"):
+                final.append(read(o))
+                addrs.append(int(ffi.cast("uintptr_t", ffi.addressof(o))))
+            else:
+                final.append(read(o))
+                addrs.append(int(ffi.cast("uintptr_t", o)))
+        except Exception as e:
+            final.append({"exc": classify_exc(ffi, e)})
+            addrs.append(None)
+    # canonical aliasing: index of the first kept object with the same address
+    first, alias = {}, []
+    for i, a in enumerate(addrs):
+        if a is None:
+            alias.append(None)
+        else:
+            alias.append(first.setdefault(a, i))
+    return {"immediate": imm, "final": final, "alias": alias}
+
+
+def expected_session(unit, steps):
+    """The same observations computed from C semantics alone (by-value results are fresh objects)."""
+    v = unit["vstruct"]
+    A, B, C = INTS[v["A"]], INTS[v["B"]], INTS[v["C"]]
+    STATIC = {"a": 0, "b": 0, "c": 0, "id": "static"}
+    G0 = {"a": v["ginit"][0], "b": v["ginit"][1], "c": v["ginit"][2], "id": "global"}
+    kept, imm = [], []
+    fns = {f["name"]: f for f in unit["funcs"]}
+
+    def read(m):
+        return [m["a"], m["b"], m["c"]]
+
+    for i, st in enumerate(steps):
+        op = st["op"]
+        obj, out = None, None
+        if op == "mk":
+            obj = {"a": st["a"], "b": st["b"], "c": wrap((st["a"] % 2 ** 64) * 3 + (st["b"] % 2 ** 64), C), "id": i}
+            out = read(obj)
+        elif op == "sum":
+            m = kept[st["of"]]
+            out = obj = (m["a"] % 2 ** 64 + (m["b"] % 2 ** 64) * 3 + m["c"] % 2 ** 64) % 2 ** 64
+        elif op == "new":
+            obj = {"a": st["a"], "b": st["b"], "c": st["c"], "id": i}
+            out = read(obj)
+        elif op == "id":
+            obj = kept[st["of"]]
+            out = read(obj)
+        elif op == "cof":
+            obj = ("cof", kept[st["of"]])
+            out = kept[st["of"]]["c"]
+        elif op == "static":
+            obj = STATIC
+            out = read(obj)
+        elif op == "bump":
+            STATIC["a"] = st["a"]
+            STATIC["b"] = wrap(STATIC["b"] + 1, B)
+        elif op == "gread":
+            obj = G0
+            out = read(obj)
+        elif op == "gbump":
+            G0["a"] = st["a"]
+            G0["c"] = wrap(G0["c"] + 1, C)
+        elif op == "write":
+            kept[st["of"]]["a"] = st["a"]
+        elif op == "pwrite":
+            kept[st["of"]]["b"] = st["b"]
+        elif op == "call":
+            fn = fns[st["name"]]
+            out = obj = wrap(sum((a % 2 ** 64) * c for a, c in zip(st["args"], fn["coef"])) + fn["add"], INTS[fn["ret"]])
+        kept.append(obj)
+        imm.append(out)
+    final, ids = [], []
+    for st, o in zip(steps, kept):
+        if o is None:
+            final.append(None)
+            ids.append(None)
+        elif isinstance(o, int):
+            final.append(o)
+            ids.append(None)
+        elif isinstance(o, tuple):
+            final.append(o[1]["c"])
+            ids.append(("c", o[1]["id"]))
+        else:
+            final.append(read(o))
+            ids.append(("s", o["id"]))
+    first, alias = {}, []
+    for i, a in enumerate(ids):
+        alias.append(None if a is None else first.setdefault(a, i))
+    return {"immediate": imm, "final": final, "alias": alias}
 
 
 def unjson(x):
